@@ -169,6 +169,7 @@ void WorkerPool<T, Neighbors, N>::run(
             assert(t->type != Interval::UNKNOWN);
             if (t->type == Interval::AMBIGUOUS)
             {
+                LIBFIVE_VERIF_POINT(verif::SITE_POOL_EVAL_DONE, t->region.level, 0, t);
                 auto rs = t->region.subdivide();
                 for (unsigned i=0; i < t->children.size(); ++i)
                 {
@@ -186,7 +187,6 @@ void WorkerPool<T, Neighbors, N>::run(
                         LIBFIVE_VERIF_POINT(verif::SITE_POOL_PUSH_LOCAL, t->region.level, i, next_tree);
                     }
                 }
-                LIBFIVE_VERIF_POINT(verif::SITE_POOL_EVAL_DONE, t->region.level, 0, t);
 
                 // If we did an interval evaluation, then we either
                 // (a) are done with this tree because it is empty / filled
@@ -240,7 +240,7 @@ void WorkerPool<T, Neighbors, N>::run(
         {
             // Report the volume of completed trees as we walk back
             // up towards the root of the tree.
-            LIBFIVE_VERIF_POINT(verif::SITE_POOL_COLLECT, 1, t->region.level, t);
+            LIBFIVE_VERIF_POINT(verif::SITE_POOL_COLLECT, 1, 0, t);
             if (settings.progress_handler) {
                 settings.progress_handler->tick();
                 LIBFIVE_VERIF_POINT(verif::SITE_POOL_TICK, 1, 0, t);
@@ -248,7 +248,7 @@ void WorkerPool<T, Neighbors, N>::run(
             up();
         }
         LIBFIVE_VERIF_ONLY(if (t != nullptr) {
-            verif::point(verif::SITE_POOL_COLLECT, 0, t->region.level, t); })
+            verif::point(verif::SITE_POOL_COLLECT, 0, 0, t); })
 
         // Termination condition:  if we've ended up pointing at the parent
         // of the tree's root (which is nullptr), then we're done and break
